@@ -269,8 +269,51 @@ def flattened_parameter_names(run: Run):
                               group="import.params:distinct-names"))
 
 
+def types_init_parses(run: Run):
+    """Every variant of types/__init__.py.j2 (<= 2 target files, <= 2 messages / enums each) is valid Python: an import statement is emitted for
+    a file only when it has something to import.  Also: Proto.names collects the names of *all* messages of the file, nested ones included
+    (they become the collision set that decides module aliases)."""
+    env = J.make_env()
+    tname = "%namespace/%name_%version/%sub/types/__init__.py.j2"
+    tree = J.parse(env, tname)
+    blk = next(iter(tree.find_all(nodes.Block)), None)
+    run.table("import.types_init:block-present", blk is not None, group="import.types_init:present")
+    if blk is None:
+        return
+
+    def consistent(d):
+        # a mapping is truthy iff it has items (also when viewed through |dictsort); api.protos only holds files to generate
+        lens = {k[1][:-len("|dictsort")]: v for k, v in d.items() if k[0] == "len" and k[1].endswith("|dictsort")}
+        for k, v in d.items():
+            if k[0] == "bool" and k[1] in lens and bool(v) != (lens[k[1]] > 0):
+                return False
+            if k[0] == "bool" and k[1].endswith(".file_to_generate") and not v:
+                return False
+        return J.container_consistent(d)
+    vs = J.render_nodes(env, tree, blk.body, ["api"], maxlen=2, prune=consistent)
+    run.fragments.append(frag_info(tname, "whole module", vs))
+    bad = []
+    for vi, var in enumerate(vs):
+        if var.error:
+            bad.append((vi, var.error))
+            continue
+        try:
+            compile(var.text, "<types/__init__>", "exec")
+        except SyntaxError as e:
+            bad.append((vi, f"{e}: {var.text[:160]!r} decisions={var.decisions}"))
+    run.table("import.types_init:every-variant-compiles", not bad and len(vs) > 20, detail=f"{len(vs)} variants; " + "; ".join(str(b) for b in bad[:2])[:600],
+              group="import.types_init:compiles")
+    f2, h2 = find_def(A, "Proto.names")
+    s2 = ast.unparse(f2)
+    run.functions.append({"qualname": "Proto.names", "source": A, "sha256_16": h2, "obligations": "AST pattern"})
+    run.table("import.names:collision-set-covers-every-message-of-the-file-nested-included",
+              "for message in self.all_messages.values():\n        answer.update((f.name for f in message.fields.values()))\n        answer.add(message.name)" in s2 and
+              "{e.name for e in self.all_enums.values()}" in s2, detail=s2[:400], group="import.names:collision-set")
+
+
 def run(run: Run):
     run.witness_check = witness_still_fails
+    types_init_parses(run)
     flattened_parameter_names(run)
     stage1(run)
     registry(run)
